@@ -73,7 +73,10 @@ def run_types(tier, seed, shapes=None, per_shape=3):
         _, head, kv, _ = vlib.parse_kv(mres.get(cid, 'x x'))
         if head == 'ok' and kv.get('size', '').startswith('ok:'):
             meta[cid]['extent'] = int(kv['size'][3:])
-    return {'shapes': shapes, 'cases': allc, 'mres': mres, 'rres': rres, 'meta': meta,
+    # the extracted model against the model evaluated inside Coq on a sample of these cases (tools/coqcross.py)
+    import coqcross
+    cross = coqcross.run({sid: shp.sexp(t) for sid, t in shapes}, allc, mres, 150 if tier == 'quick' else 600, seed)
+    return {'shapes': shapes, 'cases': allc, 'mres': mres, 'rres': rres, 'meta': meta, 'cross': cross,
             'wall': time.time() - t0}
 
 
@@ -155,8 +158,15 @@ def analyse_types(pid, suite, search=True):
                 and 'panic' in (suite['rres'].get(cid) or ''):
             v['known_class'] = 'wide_len'
         viol.append(v)
+    cross = suite.get('cross') or {}
+    if cross.get('error') or cross.get('differing'):
+        viol.append({'what': 'the extracted model (runner/) and the model evaluated inside Coq by vm_compute differ on %s: the '
+                             'extraction or the OCaml driver misrepresents the model (tools/coqcross.py)'
+                             % (cross.get('differing') or cross.get('error')),
+                     'case': ctx.line.get((cross.get('differing') or [None])[0]), 'concrete': False, 'source': 'coqcross'})
     coverage = {
         'evaluations': n_cmp,
+        'model_cross_checked_inside_coq': '%d sampled cases: extracted runner = vm_compute in coqc' % cross.get('n', 0),
         'distinct_nontrivial': len(distinct),
         'rule': 'seeded model-directed generation (gen/cases.py): per shape, value specs emplaced by the model give '
                 'canonical images; derived cases are emplacement into every buffer length and address offset, all '
@@ -347,7 +357,20 @@ def run_hist(tier, seed):
     lines, meta = hist_cases.generate(shapes, seed, tier)
     mres = vlib.run_model(runner, tl + lines, shards=16)
     rres = vlib.run_rust(harness, lines, shards=16)
-    return {'shapes': shapes, 'cases': lines, 'mres': mres, 'rres': rres, 'meta': meta, 'wall': time.time() - t0}
+    # the extracted model and the driver's composition of the steps against the same evaluated inside Coq
+    import coqcross
+
+    def tflex(t):
+        if t[0] in ('vec', 'str'):
+            return False
+        if t[0] == 'flex':
+            return True
+        pl = hist_cases.nested_plan(t)
+        return pl is not None and pl[0][0] == 'flex'
+    cross = coqcross.run_hist({sid: shp.sexp(t) for sid, t in shapes}, {sid: tflex(t) for sid, t in shapes}, lines, mres,
+                              40 if tier == 'quick' else 200, seed)
+    return {'shapes': shapes, 'cases': lines, 'mres': mres, 'rres': rres, 'meta': meta, 'cross': cross,
+            'wall': time.time() - t0}
 
 
 def hist_suite(tier, seed):
@@ -415,8 +438,15 @@ def analyse_hist(pid, suite):
         viol.append({'what': 'model and implementation differ (correspondence suite "hist", projection of %s): %s'
                              % (pid, '; '.join(d)[:700]), 'case': l, 'impl': suite['rres'].get(cid),
                      'model': suite['mres'].get(cid), 'concrete': False, 'source': 'correspondence'})
+    cross = suite.get('cross') or {}
+    if cross.get('error') or cross.get('differing'):
+        viol.append({'what': 'the extracted model (runner/) and the model evaluated inside Coq by vm_compute differ on the '
+                             'histories %s: the extraction or the OCaml driver misrepresents the model (tools/coqcross.py)'
+                             % (cross.get('differing') or cross.get('error')), 'case': None, 'concrete': False,
+                     'source': 'coqcross'})
     cov = {
         'evaluations': n_steps, 'distinct_nontrivial': len(distinct),
+        'model_cross_checked_inside_coq': '%d sampled histories: extracted runner = vm_compute in coqc, step by step' % cross.get('n', 0),
         'rule': 'seeded operation histories (gen/hist_cases.py) on FlatVec / FlatString / FlexVec instantiations of the '
                 'shape corpus; after every step both sides print result, validity, deep read, size(), re-map of the '
                 'first size() bytes and the raw buffer. evaluations = executed steps; distinct = distinct (shape, result, '
@@ -449,7 +479,10 @@ def run_io(tier, seed):
     lines, meta = io_cases.stage2(shapes, m1, r1, seed, tier)
     mres = vlib.run_model(runner, tl + lines, shards=16)
     rres = vlib.run_rust(harness, lines, shards=16)
-    return {'shapes': shapes, 'cases': lines, 'mres': mres, 'rres': rres, 'meta': meta, 'wall': time.time() - t0}
+    import coqcross
+    cross = coqcross.run_io({sid: shp.sexp(t) for sid, t in shapes}, lines, mres, 60 if tier == 'quick' else 300, seed)
+    return {'shapes': shapes, 'cases': lines, 'mres': mres, 'rres': rres, 'meta': meta, 'cross': cross,
+            'wall': time.time() - t0}
 
 
 def io_suite(tier, seed):
@@ -608,8 +641,15 @@ def analyse_io(pid, suite):
         viol.append({'what': 'model and implementation differ (correspondence suite "io", cases of %s): %s'
                              % (pid, '; '.join(d)[:700]), 'case': l, 'impl': suite['rres'].get(cid),
                      'model': suite['mres'].get(cid), 'concrete': False, 'source': 'correspondence'})
+    cross = suite.get('cross') or {}
+    if cross.get('error') or cross.get('differing'):
+        viol.append({'what': 'the extracted model (runner/) and the model evaluated inside Coq by vm_compute differ on the io '
+                             'cases %s: the extraction or the OCaml driver misrepresents the model (tools/coqcross.py)'
+                             % (cross.get('differing') or cross.get('error')), 'case': None, 'concrete': False,
+                     'source': 'coqcross'})
     cov = {
         'evaluations': n, 'distinct_nontrivial': len(distinct),
+        'model_cross_checked_inside_coq': '%d sampled recv / arecv / send / asend cases: extracted runner = vm_compute in coqc' % cross.get('n', 0),
         'rule': 'scripted-pipe cases (gen/io_cases.py, notes/io-protocol.md): the real Sender / Receiver (blocking and '
                 'async) over pipes that follow a per-call directive script (chunk sizes, Ok(0), io errors, Pending), and '
                 'the composed sender || bounded ring || receiver system under a poll schedule; distinct = distinct '
